@@ -54,6 +54,8 @@ def run_roles(prog, fi, roles, vararg=None, kwarg=None, args=None, **sc):
     for name, d in dflt.items():
         if name in call_args or name in params[:len(rl)]:
             continue
+        if _passed_somewhere(prog, fi, name, pos_all.index(name) - (1 if is_method else 0) if name in pos_all else None):
+            continue            # some caller does pass it: it stays an unknown
         if isinstance(d, ast.Constant):
             call_args[name] = Bytes([('C', d.value)]) if isinstance(d.value, bytes) else Const(d.value)
         elif dotted(d) is not None:
@@ -63,6 +65,34 @@ def run_roles(prog, fi, roles, vararg=None, kwarg=None, args=None, **sc):
     if node.args.kwarg is not None and kwarg is not None:
         call_args['**'] = Sym(kwarg)
     return Interp(prog, scen).run(fi, self_val=self_val, args=call_args)
+
+
+def _passed_somewhere(prog, fi, name, index):
+    """Does any call of a function with fi's name in the package pass parameter `name` (by keyword, by position `index`, or through
+    * / ** arguments)?"""
+    cache = prog.__dict__.setdefault('_calls_by_name', {})
+    if fi.name not in cache:
+        calls = []
+        for m in prog.modules.values():
+            for n in ast.walk(m.tree):
+                if isinstance(n, ast.Call):
+                    f = n.func
+                    fn = f.attr if isinstance(f, ast.Attribute) else (f.id if isinstance(f, ast.Name) else None)
+                    if fn is not None:
+                        cache.setdefault(fn, []).append(n)
+        cache.setdefault(fi.name, calls)
+    ndefs = sum(1 for f in prog.all_functions() if f.name == fi.name)
+    total = len(fi.params) - (1 if fi.cls is not None and 'staticmethod' not in [dotted(d) for d in fi.node.decorator_list] else 0)
+    for c in cache.get(fi.name, []):
+        if any(k.arg == name for k in c.keywords):
+            return True
+        star = any(k.arg is None for k in c.keywords) or any(isinstance(a, ast.Starred) for a in c.args)
+        if star and ndefs == 1:
+            return True         # the only function of that name, called with * / ** arguments: it may receive anything
+        npos = sum(1 for a in c.args if not isinstance(a, ast.Starred))
+        if index is not None and index < npos <= total and not (star and ndefs > 1):
+            return True
+    return False
 
 
 def objects(state):
